@@ -1,6 +1,6 @@
 (* C20 — exported theorems only: each is closed by [exact] and followed by Print Assumptions. *)
 From Coq Require Import List ZArith Bool.
-From Verif Require Import C20.Model C20.Spec C20.Proofs.
+From Verif Require Import C20.Model C20.Spec C20.Proofs_Overlay.
 Import ListNotations.
 Open Scope Z_scope.
 
